@@ -379,6 +379,15 @@ def term(f, n, depth=0):
     Variables are named by their *declared name* (not location) so that terms compare
     equal across instantiations; rules that need identity use root_var().
     """
+    n0 = f.node(n)
+    # a constant attached to a wrapper (e.g. the lvalue-to-rvalue conversion of a constexpr variable)
+    while n0 is not None and n0['k'] in WRAPPERS:
+        if 'cv' in n0:
+            return ('const', int(n0['cv']))
+        c0 = n0.get('ch', [])
+        if not c0:
+            break
+        n0 = f.node(c0[0])
     n = f.strip(n)
     if n is None or depth > 40:
         return ('other', 'none')
